@@ -4,7 +4,9 @@ package main
 
 func init() {
 	register(&propDef{id: "C13", run: runC13, controls: controlsC13})
-	register(&propDef{id: "C14", run: runC14, controls: func(cp *Prog, r *Report) { expectControl(r, "R-INV", func(cr *Report) { controlsInv(cp, cr) }, "Obj.cache/reset()/(*cache.Obj).SetPpemBad/ppem", "Obj.cache/reset()/(*cache.Obj).SetScaleBad/scale", "Obj.cand/built = false/(*cache.Obj).AddBad/db") }})
+	register(&propDef{id: "C14", run: runC14, controls: func(cp *Prog, r *Report) {
+		expectControl(r, "R-INV", func(cr *Report) { controlsInv(cp, cr) }, "Obj.cache/reset()/(*cache.Obj).SetPpemBad/ppem", "Obj.cache/reset()/(*cache.Obj).SetScaleBad/scale", "Obj.cand/built = false/(*cache.Obj).AddBad/db")
+	}})
 }
 
 func invFaceExtents() invCfg {
@@ -84,7 +86,7 @@ func stateConfigs() []stateCfg {
 		{name: "shaping.LineWrapper",
 			types:   []typeRef{{"shaping", "LineWrapper"}, {"shaping", "wrapBuffer"}, {"shaping", "breaker"}, {"shaping", "runMapper"}, {"shaping", "WrapConfig"}, {"shaping", "lineConfig"}, {"segmenter", "Segmenter"}},
 			entries: []fnRef{{"shaping", "LineWrapper", "WrapParagraph"}, {"shaping", "LineWrapper", "Prepare"}},
-			conts: []struct{ fn, after fnRef }{{fnRef{"shaping", "LineWrapper", "WrapNextLine"}, fnRef{"shaping", "LineWrapper", "Prepare"}}},
+			conts:   []struct{ fn, after fnRef }{{fnRef{"shaping", "LineWrapper", "WrapNextLine"}, fnRef{"shaping", "LineWrapper", "Prepare"}}},
 			allowed: map[string]string{
 				"wrapBuffer.lineExhausted": "growth hint: only decides whether the line slice gets extra capacity",
 				"runMapper.runIdx":         "only decisive when runMapper.valid is set, which Prepare clears (the test is `runIdx != x || !valid`)",
